@@ -35,7 +35,7 @@ struct BitRunner {
 		BS &A = *a, &B = *b;
 		if(o.name == "construct") { A.~BS(); memset((void *)a, 0xAA, sizeof(BS)); new (a) BS(to_ull(o.bits)); }
 		else if(o.name == "construct_b") { B.~BS(); memset((void *)b, 0xAA, sizeof(BS)); new (b) BS(to_ull(o.bits)); }
-		else if(o.name == "set") A.set(o.p, o.k != 0);
+		else if(o.name == "set") { if(o.k != 0 && (o.p & 1)) A.set(o.p); else A.set(o.p, o.k != 0); }     // also through the default argument
 		else if(o.name == "set_all") A.set();
 		else if(o.name == "reset") A.reset(o.p);
 		else if(o.name == "reset_all") A.reset();
